@@ -351,9 +351,20 @@ func (e *Engine) closure(roots []string) []string {
 					if ict := e.cs.ByTarget[iname]; ict != nil {
 						for _, impl := range strings.Split(ict.Flags["impls"], ",") {
 							impl = strings.TrimSpace(impl)
-							if impl != "" {
-								visit(qualify(ict.Pkg, impl))
+							if impl == "" {
+								continue
 							}
+							q := qualify(ict.Pkg, impl)
+							if wc := e.cs.ByTarget[q]; wc != nil && wc.Flags["like"] != "" {
+								// a refinement wrapper: it is verified (against the implementation's contract), but the
+								// implementation's body belongs to the closure of the properties that own it (C03/C04)
+								if !seen[q] {
+									seen[q] = true
+									out = append(out, q)
+								}
+								continue
+							}
+							visit(q)
 						}
 					}
 				}
@@ -524,7 +535,13 @@ func trustedBase(eng *Engine) []string {
 			for _, w := range strings.Fields(c.Flags["refined"]) {
 				ws = append(ws, eng.shortName(w))
 			}
-			out = append(out, "interface contract "+n+": assumed at dynamic calls; proved to follow from the contract of each listed implementation (refinement wrappers verified in every closure that uses it: "+strings.Join(ws, ", ")+"); implementations outside this list are not covered")
+			pre := ""
+			for _, w := range strings.Fields(c.Flags["refined"]) {
+				if wc := eng.cs.ByTarget[w]; wc != nil && wc.Flags["assumepre"] != "" {
+					pre = "; ASSUMED at dynamic calls: the receiver's dynamic type is one of these and the preconditions of that implementation's own contract hold (well-formed message object, stated size bounds, destination buffer separate from the message's own buffers)"
+				}
+			}
+			out = append(out, "interface contract "+n+": assumed at dynamic calls; its postconditions and frame are proved to follow from the contract of each listed implementation (refinement wrappers, verified in every closure that uses the interface: "+strings.Join(ws, ", ")+")"+pre+"; implementations outside this list are not covered")
 			continue
 		}
 		out = append(out, "trusted contract (assumed, not proved): "+n)
@@ -538,6 +555,9 @@ func trustedBase(eng *Engine) []string {
 			}
 		}
 		for _, cl := range c.Ensures {
+			if strings.HasPrefix(cl.Label, "assumed-") && c.Kind == "iface" && c.Flags["refined"] != "" {
+				more = append(more, "assumed part of interface contract "+n+" (not proved for the implementations): "+cl.Text)
+			}
 			if strings.HasPrefix(cl.Label, "ghostdef") && !c.Trusted {
 				more = append(more, "ghost definition (assumed at call sites, nothing to check in the body) in "+eng.shortName(n)+": "+cl.Text)
 			}
